@@ -1,4 +1,5 @@
 """C09 - output lines are self-contained, well-formed terminal text."""
+import re
 from .. import corpus, engine, gen, runner, term, workload
 from ..engine import held, inconclusive, violated, crash_outcome
 
@@ -97,6 +98,22 @@ def run_item(item):
             if rng.random() < 0.3:
                 opts['--hunk-header-style'] = 'raw'
                 opts['--hunk-header-decoration-style'] = 'none'
+    env9 = None
+    if case['kind'] == 'log' and 'diff' in case and rng.random() < 0.3:
+        # git log --stat -p as git sends it to its pager from a subdirectory: the graph of the diff-stat lines coloured,
+        # GIT_PREFIX set; with --relative-paths delta rewrites the paths of those lines
+        stat = corpus.diffstat_lines(rng, [s_.new_path for s_ in case['diff'].sections])
+        if colored or rng.random() < 0.6:
+            stat = [re.sub(r'(\+*)(-*)$', lambda m_: (E + '[32m' + m_.group(1) + E + '[m' if m_.group(1) else '') + (E + '[31m' + m_.group(2) + E + '[m' if m_.group(2) else ''), l)
+                    if ' | ' in l else l for l in stat]
+        k_ = next((i for i, l in enumerate(lines) if l.startswith(('diff --git', E + '[1mdiff --git'))), len(lines))
+        lines = lines[:k_] + stat + lines[k_:]
+        if rng.random() < 0.7:
+            opts['--relative-paths'] = True
+            env9 = {'GIT_PREFIX': rng.choice(['src/', 'a/b/', 'docs/'])}
+        case = dict(case)
+        case['meta'] = dict(case['meta'])
+        case['meta']['classes'] = list(case['meta']['classes']) + ['diff-stat' + ('+relative-paths' if env9 else '')]
     hyper = rng.random() < 0.4
     repo_cwd = None
     if hyper:
@@ -123,7 +140,7 @@ def run_item(item):
     if mode == 'pty' and '--dark' not in opts and '--light' not in opts:
         opts['--dark'] = True
     data = ('\n'.join(lines) + '\n').encode('utf-8', 'surrogateescape')
-    res = runner.run_delta(gen.to_args(opts), data, mode=mode, pty_size=size, cwd=repo_cwd, **workload.parent_kw(case))
+    res = runner.run_delta(gen.to_args(opts), data, mode=mode, pty_size=size, cwd=repo_cwd, env=env9, **workload.parent_kw(case))
     if repo_cwd is not None:
         import shutil
         shutil.rmtree(repo_cwd, ignore_errors=True)
